@@ -72,6 +72,9 @@ pub enum Mutation {
     ReplaceIndex { at: u16, with: u16, form: u8 },
     /// add one more name to the `at`-th destructuring pattern: `(p, q) in` becomes `(p, q, g9) in`
     GrowTuple { at: u16 },
+    /// replace the `at`-th range `a..b` / `a..=b` whose bounds are single tokens by a whole range
+    /// of the caller's list (the program stays syntactically valid)
+    ReplaceRange { at: u16, with: u16 },
 }
 
 const KEYWORDS: [&str; 12] = ["min", "max", "solve", "s", "t", "where", "define", "let", "as", "for", "in", "subject"];
@@ -92,6 +95,15 @@ fn operand_positions(p: &[Piece]) -> Vec<usize> {
 pub fn apply(text: &str, muts: &[Mutation], replacements: &[&str]) -> String {
     apply_ext(text, muts, replacements, &[])
 }
+
+/// small and extreme ranges, both spellings, both signs, empty, reversed, singleton, at the limits
+/// of the integer types
+pub const RANGES: [&str; 20] = [
+    "9223372036854775806..=9223372036854775807", "9223372036854775805..9223372036854775807", "9223372036854775807..=9223372036854775807",
+    "(-9223372036854775807 - 1)..(-9223372036854775806)", "(-9223372036854775807 - 1)..=(-9223372036854775807)", "18446744073709551613..18446744073709551615",
+    "18446744073709551614..=18446744073709551615", "2147483646..=2147483647", "4294967295..=4294967296", "-2147483649..=-2147483648",
+    "5..=5", "5..5", "7..2", "0..=0", "-3..=-1", "-1..=1", "0..=9223372036854775807", "0.5..3", "0..2.5", "0..=2",
+];
 
 pub fn apply_ext(text: &str, muts: &[Mutation], replacements: &[&str], numbers: &[&str]) -> String {
     let mut p = split(text);
@@ -150,6 +162,29 @@ pub fn apply_ext(text: &str, muts: &[Mutation], replacements: &[&str], numbers: 
                 }
                 let i = pos[*at as usize % pos.len()];
                 p.insert(i, Piece::Other(", g9".to_string()));
+            }
+            Mutation::ReplaceRange { at, with } => {
+                // positions i of a bound token followed by `..` (`=`)? and another bound token
+                let is_bound = |x: &Piece| matches!(x, Piece::Number(_)) || matches!(x, Piece::Word(w) if !KEYWORDS.contains(&w.as_str()));
+                let dot = |x: &Piece| matches!(x, Piece::Other(s) if s == ".");
+                let mut found: Vec<(usize, usize)> = vec![];
+                for i in 0..p.len() {
+                    if is_bound(&p[i]) && i + 3 < p.len() && dot(&p[i + 1]) && dot(&p[i + 2]) {
+                        let mut j = i + 3;
+                        if matches!(&p[j], Piece::Other(s) if s == "=") {
+                            j += 1;
+                        }
+                        if j < p.len() && is_bound(&p[j]) {
+                            found.push((i, j));
+                        }
+                    }
+                }
+                if found.is_empty() {
+                    continue;
+                }
+                let (i, j) = found[*at as usize % found.len()];
+                let r = RANGES[*with as usize % RANGES.len()];
+                p.splice(i..=j, [Piece::Other(r.to_string())]);
             }
             Mutation::ReplaceWord { at, with } => {
                 let pos: Vec<usize> = p
